@@ -277,6 +277,30 @@ func progExtendsCrossFileD(sameName, twoLevel, sameSvc, dotted bool) *Program {
 	return &Program{Name: name, Main: f, Feat: name}
 }
 
+// progExtendsChainNested: an inheritance chain over two included files (Top extends mid.Mid, Mid extends low.Low);
+// both files declare a struct Inner (different fields) that is used NESTED in the request of a function of their
+// own service; all functions return a scalar, so that the two nested uses are compiled one after the other for the
+// same side.
+func progExtendsChainNested() *Program {
+	low := &File{Path: "a/b/low.thrift", NS: "low"}
+	lInner := low.AddStruct("struct", "Inner", reqd(fld(1, "y", T(I64)), ReqOptional), fld(2, "z", T(String)))
+	lReq := low.AddStruct("struct", "LowReq", fld(1, "inner", Ref(lInner)), fld(2, "n", T(I32)))
+	lowSvc := low.AddService("Low", nil, fn("LowCall", T(String), Ref(lReq)))
+	mid := &File{Path: "a/b/mid.thrift", NS: "mid"}
+	mid.Include("low.thrift", low)
+	mInner := mid.AddStruct("struct", "Inner", reqd(fld(1, "x", T(String)), ReqRequired))
+	mReq := mid.AddStruct("struct", "MidReq", fld(1, "inner", Ref(mInner)), fld(2, "items", &TRef{K: List, Elem: Ref(mInner)}))
+	midSvc := mid.AddService("Mid", lowSvc, fn("MidCall", T(String), Ref(mReq)))
+	f := newMain("xn")
+	f.Include("mid.thrift", mid)
+	req := f.AddStruct("struct", "Req", fld(1, "q", T(String)))
+	f.AddService("Top", midSvc, fn("Own", T(String), Ref(req)))
+	name := "extends-chain,same-struct-name-nested-in-both-base-files"
+	lowSvc.Funcs[0].Feat = name + ",inherited-2nd-level"
+	midSvc.Funcs[0].Feat = name + ",inherited"
+	return &Program{Name: name, Main: f, Feat: name}
+}
+
 func progMultiService() *Program {
 	f := newMain("ms")
 	r1 := f.AddStruct("struct", "R1", fld(1, "a", T(I32)))
@@ -708,7 +732,7 @@ func partAPrograms(tier string) []*Program {
 	ps := []*Program{shapes,
 		progScalars(), progContainers(), progTypedefs(), progEnums(), progUnionsExceptions(), progSelfRec(), progMutRec(),
 		progIncludes(), progExtendsSameFile(), progExtendsCrossFile(false, false), progExtendsCrossFile(true, false),
-		progExtendsCrossFile(false, true), progExtendsCrossFile(true, true), progExtendsCrossFileS(false, false, true), progExtendsCrossFileS(false, true, true), progExtendsCrossFileD(false, false, false, true), progExtendsCrossFileD(false, true, false, true), progMultiService(), progFuncs(),
+		progExtendsCrossFile(false, true), progExtendsCrossFile(true, true), progExtendsCrossFileS(false, false, true), progExtendsCrossFileS(false, true, true), progExtendsCrossFileD(false, false, false, true), progExtendsCrossFileD(false, true, false, true), progExtendsChainNested(), progMultiService(), progFuncs(),
 		progDefaults(), progAliases(), progBase("root-only"), progBase("nested-first"), progBase("root-first"), progSuppressed(),
 	}
 	return ps
